@@ -131,6 +131,9 @@ def run(ctx):
         # the included-range difference that invalidates reuse of newly excluded / included text (shared with C04)
         import C04
         C04.rule_p1(ctx, F)
+        # …and the reuse veto for the old EOF token must look to the end of the file (shared with C01.P6)
+        import C01
+        C01.rule_saturation(ctx, F)
     rust_half(ctx)
     return ctx.finish(
         "Gate and wiring rules over lexer.c/tree.c/parser.c (+ the Rust setter): a range list is installed only after every element passed both ordering tests; "
